@@ -580,6 +580,44 @@ def probe(target, cands, names, full=()):
     return json.loads(p.stdout)
 
 
+CACHE_DIR = os.path.join(VERIF, ".scratch", "imports-cache")
+
+
+def _cache_key(base, ext, names, star_ext):
+    env = []
+    for d in sorted(set(sys.path)):
+        if d.endswith("site-packages") and os.path.isdir(d):
+            st = os.stat(d)
+            env.append((d, st.st_mtime_ns))
+            for f in sorted(os.listdir(d)):
+                if f.endswith(".pth") or f.endswith(".dist-info") or f.endswith(".egg-link"):
+                    st = os.stat(os.path.join(d, f))
+                    env.append((f, st.st_mtime_ns, st.st_size))
+    exe = os.path.realpath(PY)
+    doc = [PROBE, sys.version, exe, os.stat(exe).st_mtime_ns, env, base, ext, names, sorted(star_ext)]
+    return hashlib.sha1(json.dumps(doc, sort_keys=True).encode()).hexdigest()
+
+
+def cache_load(base, ext, names, star_ext):
+    try:
+        with open(os.path.join(CACHE_DIR, _cache_key(base, ext, names, star_ext) + ".json")) as f:
+            return json.load(f)
+    except (OSError, ValueError):
+        return None
+
+
+def cache_store(base, ext, names, star_ext, results):
+    try:
+        os.makedirs(CACHE_DIR, exist_ok=True)
+        path = os.path.join(CACHE_DIR, _cache_key(base, ext, names, star_ext) + ".json")
+        tmp = path + ".tmp%d" % os.getpid()
+        with open(tmp, "w") as f:
+            json.dump(results, f)
+        os.replace(tmp, path)
+    except OSError:
+        pass
+
+
 # ----------------------------------------------------------------------------------------------- assembling
 
 def walk_events(evs):
@@ -675,14 +713,21 @@ def build(repo):
         return sorted(ns)
     names = ext_names()
     star_ext = {e[2] for evs in bodies.values() for e in walk_events(evs) if e[0] == "star" and not is_ioflo(e[2])}
-    # measurements: the fresh interpreter, then every non-ioflo node on its own (in a clean process each)
+    # measurements: the fresh interpreter (always live), then every non-ioflo node on its own, in a clean process
+    # each.  The per-module measurements are cached on disk, keyed by the interpreter, its site configuration, the
+    # fresh-interpreter measurement itself and the question asked; the key changing re-measures everything.
     results = {}
     base = probe(None, ext, names, star_ext)
     for rnd in range(4):
+        cached = cache_load(base, ext, names, star_ext)
+        if cached is not None:
+            results = cached
         todo = [x for x in ext if x not in results]
         with concurrent.futures.ThreadPoolExecutor(16) as pool:
             for x, r in zip(todo, pool.map(lambda t: probe(t, ext, names, star_ext), todo)):
                 results[x] = r
+        if todo:
+            cache_store(base, ext, names, star_ext, results)
         # sub-modules that show up bound on a measured module become nodes too (and get measured)
         more = set()
         for r in [base] + list(results.values()):
@@ -700,6 +745,7 @@ def build(repo):
         ext = sorted(n for n in nodes if not is_ioflo(n))
         names = ext_names()
         base = probe(None, ext, names, star_ext)
+        results = {}
     preloaded = [m for m in ext if m in set(base["pre"])]
     extset = set(ext)
 
